@@ -245,6 +245,25 @@ func c13Submit(in []string) []string {
 		}
 	}
 
+	if (len(body)+len(keys))%2 == 1 {
+		// a Runtime serves many calls and its registry is a public, editable map: on about half of the cases
+		// the call judged here is the second one on this Runtime, the first having been answered with the same
+		// response under a registry in which every key (and the catch-all) belongs to another consumer
+		real := rt.Consumers
+		decoys := map[string]runtime.Consumer{"*/*": c13Consumer{key: "decoy"}}
+		for _, k := range keys {
+			decoys[k] = c13Consumer{key: "decoy"}
+		}
+		rt.Consumers = decoys
+		warm := *op
+		warm.Client = &http.Client{Transport: &c13RT{tok: "warm", seen: &c13Seen{}, mk: mk}}
+		warm.Reader = runtime.ClientResponseReaderFunc(func(resp runtime.ClientResponse, _ runtime.Consumer) (interface{}, error) {
+			_, _ = io.Copy(io.Discard, resp.Body())
+			return nil, nil
+		})
+		_, _ = rt.Submit(&warm)
+		rt.Consumers = real
+	}
 	res, err := rt.Submit(op)
 	if bareOpClient && op.Client.Transport != nil {
 		seen.client += "+caller-client-modified"
